@@ -224,6 +224,9 @@ def include_chains(rng, quick):
             for after in (False, True):
                 for variant in range(3 if quick else 8):
                     names = ["main.jst"] + [("d%d/" % i if (i + variant) % 2 else "") + "f%d.jst" % i for i in range(1, k + 1)]
+                    if variant == 2:
+                        # every included file has the SAME base name, one directory deeper each time
+                        names = ["main.jst"] + ["/".join("n%d" % x for x in range(1, i + 1)) + "/index.jst" for i in range(1, k + 1)]
                     files, inc_line = [], {}
                     for i in range(k + 1):
                         lines = ["JSIGHT 0.3", "TYPE @dup", "  {}"] if i == 0 else []
